@@ -35,6 +35,10 @@ pub enum Mutation {
     HeaderAddValue(u16),
     HeaderRemove(u16),
     HeaderSwapValues(u16),
+    /// add or remove a port suffix on the Host value (":443", ":80", ":8443", ":")
+    HostPort(u8),
+    /// append / strip a short suffix on a header value (";", " x", ".", "/")
+    HeaderSuffix(u16, u8),
     BodyFlip(u16),
     BodyAppend(u8),
     BodyTruncate(u16),
@@ -84,6 +88,8 @@ pub fn mutation() -> BoxedStrategy<Mutation> {
         1 => any::<u16>().prop_map(HeaderAddValue),
         1 => any::<u16>().prop_map(HeaderRemove),
         1 => any::<u16>().prop_map(HeaderSwapValues),
+        2 => any::<u8>().prop_map(HostPort),
+        1 => (any::<u16>(), any::<u8>()).prop_map(|(a, b)| HeaderSuffix(a, b)),
         2 => any::<u16>().prop_map(BodyFlip),
         1 => any::<u8>().prop_map(BodyAppend),
         1 => any::<u16>().prop_map(BodyTruncate),
@@ -215,7 +221,7 @@ pub fn apply(m: &Mutation, plan: &Plan, built: &Built) -> Option<Case> {
                 Some(i) => (case.req.uri[..i].to_string(), case.req.uri[i..].to_string()),
                 Option::None => (case.req.uri.clone(), String::new()),
             };
-            if !p.contains("%20") {
+            if !case.req.path().contains("%20") {
                 return Option::None;
             }
             case.req.uri = format!("{}{}", p.replacen("%20", "+", 1), q);
@@ -274,6 +280,32 @@ pub fn apply(m: &Mutation, plan: &Plan, built: &Built) -> Option<Case> {
         HeaderRemove(h) => {
             let i = pick_idx(*h, case.req.headers.len());
             case.req.headers.remove(i);
+        }
+        HostPort(k) => {
+            let i = find_header(&case.req, "host")?;
+            let v = latin1(&case.req.headers[i].1 .0);
+            let t = v.trim_end_matches(' ').to_string();
+            const PORTS: [&str; 5] = [":443", ":80", ":8443", ":", ":0443"];
+            let nv = match PORTS.iter().find(|p| t.ends_with(*p)) {
+                Some(p) if k % 2 == 0 => t[..t.len() - p.len()].to_string(),
+                _ => format!("{}{}", t, PORTS[*k as usize % PORTS.len()]),
+            };
+            if nv == v {
+                return Option::None;
+            }
+            case.req.headers[i].1 = B::from(nv);
+        }
+        HeaderSuffix(h, k) => {
+            let i = pick_idx(*h, case.req.headers.len());
+            const SUF: [&str; 6] = [";", " x", ".", "/", ",", "\t"];
+            let suf = SUF[*k as usize % SUF.len()];
+            let v = &mut case.req.headers[i].1 .0;
+            if *k >= 128 && v.ends_with(suf.as_bytes()) {
+                let n = v.len() - suf.len();
+                v.truncate(n);
+            } else {
+                v.extend_from_slice(suf.as_bytes());
+            }
         }
         HeaderSwapValues(h) => {
             let i = pick_idx(*h, case.req.headers.len());
@@ -454,7 +486,7 @@ pub fn label(m: &Mutation) -> &'static str {
         Method(_) => "method",
         UriChar(..) | UriInsert(..) | UriDelete(_) | ToggleTrailingSlash | PathSpaceToPlus => "uri",
         AppendParam(_) | DuplicateParam(_) | RemoveParam(_) => "param",
-        HeaderByte(..) | HeaderCase(..) | HeaderAddValue(_) | HeaderRemove(_) | HeaderSwapValues(_) => "header",
+        HeaderByte(..) | HeaderCase(..) | HeaderAddValue(_) | HeaderRemove(_) | HeaderSwapValues(_) | HostPort(_) | HeaderSuffix(..) => "header",
         BodyFlip(_) | BodyAppend(_) | BodyTruncate(_) => "body",
         Timestamp(_) | TimestampLeapSecond(_) => "timestamp",
         Credential(..) => "credential",
@@ -524,12 +556,16 @@ pub fn soundness(case: &Case, lbl: &'static str, cc: &mut CaseCtx) -> CheckResul
 /// The same case with every literal '+' of the path spelled %2B; None when the path has no '+'.
 pub fn escape_plus_in_path(case: &Case) -> Option<Case> {
     let path = case.req.path();
-    if !path.contains('+') || !case.req.uri.starts_with('/') {
+    if !path.contains('+') {
         return None;
     }
-    let rest = case.req.uri[path.len()..].to_string();
+    // the path is the prefix of the origin-form part, which is a suffix of the request target
+    let pq = case.req.path_and_query();
+    let prefix_len = case.req.uri.len() - pq.len();
+    let prefix = case.req.uri[..prefix_len].to_string();
+    let rest = pq[path.len()..].to_string();
     let mut c2 = case.clone();
-    c2.req.uri = format!("{}{}", path.replace('+', "%2B"), rest);
+    c2.req.uri = format!("{}{}{}", prefix, path.replace('+', "%2B"), rest);
     Some(c2)
 }
 
